@@ -1070,7 +1070,12 @@ func (r *pyRange) Operator(operator Operator, operand pyObject) pyObject {
 }
 
 func (r *pyRange) Len() int {
-	return int((r.Stop - r.Start) / r.Step)
+	if r.Step > 0 && r.Start < r.Stop {
+		return int((r.Stop - r.Start + r.Step - 1) / r.Step)
+	} else if r.Step < 0 && r.Start > r.Stop {
+		return int((r.Start - r.Stop - r.Step - 1) / -r.Step)
+	}
+	return 0
 }
 
 func (r *pyRange) Item(index int) pyObject {
@@ -1079,7 +1084,7 @@ func (r *pyRange) Item(index int) pyObject {
 
 func (r *pyRange) Iter() iter.Seq[pyObject] {
 	return func(yield func(pyObject) bool) {
-		for i := r.Start; i < r.Stop; i += r.Step {
+		for i, n := r.Start, r.Len(); n > 0; i, n = i+r.Step, n-1 {
 			if !yield(i) {
 				break
 			}
@@ -1093,7 +1098,7 @@ func (r *pyRange) MarshalJSON() ([]byte, error) {
 
 func (r *pyRange) toList(extraCapacity int) pyList {
 	ret := make(pyList, 0, r.Len()+extraCapacity)
-	for i := r.Start; i < r.Stop; i += r.Step {
+	for i, n := r.Start, r.Len(); n > 0; i, n = i+r.Step, n-1 {
 		ret = append(ret, i)
 	}
 	return ret
